@@ -200,6 +200,9 @@ def task_cases(thorough, seed):
     for name, kw in (("c_queued", {"blocker_ms": 400, "cancel_after_ms": 60}), ("c_now", {"cancel_after_ms": 0}), ("c_mid", {"cancel_after_ms": 180}),
                      ("c_twice", {"cancel_after_ms": 150, "cancel_twice": 1}), ("c_late", {"cancel_after_ms": 900})):
         add(name, slow, cancel=True, **kw)
+    # the shell has exited, a grandchild keeps the pipes open, the cancel arrives before the terminal frame
+    cases.append({"id": "c_after_exit_pipes_open", "payload": {"tool": "bash", "args": {"command": "(sleep 1.5; true) & printf 'hi'"}}, "cancel_after_ms": 400,
+                  "page_sizes": [64], "settle_ms": 300, "_exp": {"stdout": b"hi", "stderr": b""}, "_cap": big, "_prev": big, "_kind": "ascii", "_exit": 0, "cancel": True})
     # a grandchild keeps the pipe open and writes after the shell has exited
     cases.append({"id": "late_writer", "payload": {"tool": "bash", "args": {"command": "(sleep 2.6; printf 'late\\n') & printf 'early\\n'"}},
                   "page_sizes": [64], "settle_ms": 1300, "_exp": {"stdout": b"early\nlate\n", "stderr": b""}, "_cap": big, "_prev": big, "_kind": "ascii", "_exit": 0})
